@@ -123,6 +123,47 @@ func b01(b bool) string {
 type emitter struct {
 	w    *bufio.Writer
 	dist map[string]int
+	ops  *os.File // <trace>.ops: kind and inputs of every operation, written unbuffered BEFORE it is executed
+}
+
+// op logs the operation about to be executed; after an abort (a panic that escapes recover, a runtime fatal error, a
+// timeout) the last line of the .ops file names the operation that was running, and it is a replayable input line.
+func (e *emitter) op(kind string, ins ...string) {
+	if e.ops != nil {
+		e.ops.WriteString(kind + " " + strings.Join(ins, " ") + "\n")
+	}
+}
+
+// safe variants of implementation calls made by the generators themselves: a panic becomes a trace line (an oracle
+// failure with that name as the replay) instead of aborting the harness
+func (e *emitter) bytesOf(n enc.Name) []byte {
+	var bs []byte
+	e.op("BYTES", nameStr(n))
+	if guard(func() string { bs = n.Bytes(); return "" }) == "panic" {
+		fmt.Fprintf(e.w, "BYTES %s panic\n", nameStr(n))
+		return nil
+	}
+	return bs
+}
+
+func (e *emitter) compBytesOf(c enc.Component) []byte {
+	var bs []byte
+	e.op("COMP", compStr(c), compStr(c))
+	if guard(func() string { bs = c.Bytes(); return "" }) == "panic" {
+		fmt.Fprintf(e.w, "COMP %s %s panic\n", compStr(c), compStr(c))
+		return nil
+	}
+	return bs
+}
+
+func (e *emitter) compStringOf(c enc.Component) string {
+	var r string
+	e.op("CSTR", compStr(c))
+	if guard(func() string { r = c.String(); return "" }) == "panic" {
+		fmt.Fprintf(e.w, "CSTR %s panic\n", compStr(c))
+		return ""
+	}
+	return r
 }
 
 func (e *emitter) count(k string) { e.dist[k]++ }
@@ -146,7 +187,7 @@ func guard(f func() string) (res string) {
 //   cap:i:j       a = base[i:j], b = append(a, base[0])   written in place into a's spare capacity when j < len(base)
 func deriveAlias(shape string, full enc.Name) (a, b enc.Name, ok bool) {
 	f := strings.Split(shape, ":")
-	base := full.Clone()
+	base := cloneName(full)
 	num := func(k int) int {
 		if k >= len(f) {
 			return -1
@@ -198,7 +239,13 @@ func deriveAlias(shape string, full enc.Name) (a, b enc.Name, ok bool) {
 
 // apair: every relational call family on operands that alias in memory; the answers must depend on the values only
 func (e *emitter) apair(shape string, full enc.Name) {
-	a, b, ok := deriveAlias(shape, full)
+	e.op("APAIR", shape, nameStr(full))
+	var a, b enc.Name
+	ok := false
+	if guard(func() string { a, b, ok = deriveAlias(shape, full); return "" }) == "panic" {
+		fmt.Fprintf(e.w, "APAIR %s %s panic\n", shape, nameStr(full))
+		return
+	}
 	if !ok {
 		fmt.Fprintf(e.w, "BADINPUT APAIR\n")
 		return
@@ -300,6 +347,7 @@ func (e *emitter) hin(t uint64, spec string) {
 		fmt.Fprintf(e.w, "BADINPUT HIN\n")
 		return
 	}
+	e.op("HIN", strconv.FormatUint(t, 10), spec)
 	e.count("HIN")
 	obs := guard(func() string {
 		s, det := stream(enc.Component{Typ: enc.TLNum(t), Val: v})
@@ -316,6 +364,7 @@ func (e *emitter) hpair(t1 uint64, spec1 string, t2 uint64, spec2 string) {
 		fmt.Fprintf(e.w, "BADINPUT HPAIR\n")
 		return
 	}
+	e.op("HPAIR", strconv.FormatUint(t1, 10), spec1, strconv.FormatUint(t2, 10), spec2)
 	e.count("HPAIR")
 	obs := guard(func() string {
 		s1, d1 := stream(enc.Component{Typ: enc.TLNum(t1), Val: v1})
@@ -328,6 +377,7 @@ func (e *emitter) hpair(t1 uint64, spec1 string, t2 uint64, spec2 string) {
 // hname: the HashInto streams of a name's components (comma separated), and whether Name.Hash, PrefixHash[i] and
 // Component.Hash are xxhash of exactly the concatenation of these streams up to the respective component
 func (e *emitter) hname(n enc.Name) {
+	e.op("HNAME", nameStr(n))
 	e.count("HNAME")
 	obs := guard(func() string {
 		var all []byte
@@ -364,6 +414,7 @@ func (e *emitter) hname(n enc.Name) {
 }
 
 func (e *emitter) pair(a, b enc.Name) {
+	e.op("PAIR", nameStr(a), nameStr(b))
 	e.count("PAIR")
 	obs := guard(func() string {
 		return fmt.Sprintf("%d %s %s %s %d %s %s %s", a.Compare(b), b01(a.Equal(b)), b01(a.IsPrefix(b)), b01(b.IsPrefix(a)),
@@ -373,6 +424,7 @@ func (e *emitter) pair(a, b enc.Name) {
 }
 
 func (e *emitter) triple(a, b, c enc.Name) {
+	e.op("TRIPLE", nameStr(a), nameStr(b), nameStr(c))
 	e.count("TRIPLE")
 	obs := guard(func() string {
 		return fmt.Sprintf("%d %d %d %d %d %d", a.Compare(b), b.Compare(c), a.Compare(c), b.Compare(a), c.Compare(b), c.Compare(a))
@@ -381,6 +433,7 @@ func (e *emitter) triple(a, b, c enc.Name) {
 }
 
 func (e *emitter) comp(c, d enc.Component) {
+	e.op("COMP", compStr(c), compStr(d))
 	e.count("COMP")
 	obs := guard(func() string {
 		return fmt.Sprintf("%d %s %s %s", c.Compare(d), b01(c.Equal(d)), hx(c.Bytes()), hx(d.Bytes()))
@@ -389,11 +442,13 @@ func (e *emitter) comp(c, d enc.Component) {
 }
 
 func (e *emitter) nameBytes(a enc.Name) {
+	e.op("BYTES", nameStr(a))
 	e.count("BYTES")
 	fmt.Fprintf(e.w, "BYTES %s %s\n", nameStr(a), guard(func() string { return hx(a.Bytes()) }))
 }
 
 func (e *emitter) brt(a enc.Name) {
+	e.op("BRT", nameStr(a))
 	e.count("BRT")
 	res := guard(func() string {
 		n, err := enc.NameFromBytes(a.Bytes())
@@ -406,6 +461,7 @@ func (e *emitter) brt(a enc.Name) {
 }
 
 func (e *emitter) fromBytes(in []byte) {
+	e.op("FROMBYTES", hx(in))
 	e.count("FROMBYTES")
 	res := guard(func() string {
 		n, err := enc.NameFromBytes(in)
@@ -418,6 +474,7 @@ func (e *emitter) fromBytes(in []byte) {
 }
 
 func (e *emitter) compFromBytes(in []byte) {
+	e.op("CFB", hx(in))
 	e.count("CFB")
 	res := guard(func() string {
 		c, err := enc.ComponentFromBytes(in)
@@ -430,6 +487,7 @@ func (e *emitter) compFromBytes(in []byte) {
 }
 
 func (e *emitter) hash(a enc.Name) {
+	e.op("HASH", nameStr(a))
 	e.count("HASH")
 	res := guard(func() string {
 		hok := true
@@ -479,39 +537,46 @@ func cparseRes(s string) string {
 }
 
 func (e *emitter) str(u enc.Name) {
+	e.op("STR", nameStr(u))
 	e.count("STR")
 	fmt.Fprintf(e.w, "STR %s %s\n", nameStr(u), guard(func() string { return hx([]byte(u.String())) }))
 }
 
 func (e *emitter) rt(u enc.Name) {
+	e.op("RT", nameStr(u))
 	e.count("RT")
 	res := guard(func() string { return parseRes(u.String()) })
 	fmt.Fprintf(e.w, "RT %s %s\n", nameStr(u), res)
 }
 
 func (e *emitter) cstr(c enc.Component) {
+	e.op("CSTR", compStr(c))
 	e.count("CSTR")
 	res := guard(func() string { return hx([]byte(c.String())) + " " + hx([]byte(c.CanonicalString())) })
 	fmt.Fprintf(e.w, "CSTR %s %s\n", compStr(c), res)
 }
 
 func (e *emitter) crt(c enc.Component) {
+	e.op("CRT", compStr(c))
 	e.count("CRT")
 	res := guard(func() string { return cparseRes(c.String()) + " " + cparseRes(c.CanonicalString()) })
 	fmt.Fprintf(e.w, "CRT %s %s\n", compStr(c), res)
 }
 
 func (e *emitter) parse(s string) {
+	e.op("PARSE", hx([]byte(s)))
 	e.count("PARSE")
 	fmt.Fprintf(e.w, "PARSE %s %s\n", hx([]byte(s)), parseRes(s))
 }
 
 func (e *emitter) cparse(s string) {
+	e.op("CPARSE", hx([]byte(s)))
 	e.count("CPARSE")
 	fmt.Fprintf(e.w, "CPARSE %s %s\n", hx([]byte(s)), cparseRes(s))
 }
 
 func (e *emitter) pparse(s string) {
+	e.op("PPARSE", hx([]byte(s)))
 	e.count("PPARSE")
 	res := guard(func() string {
 		n, err := enc.NamePatternFromStr(s)
@@ -524,6 +589,7 @@ func (e *emitter) pparse(s string) {
 }
 
 func (e *emitter) cpparse(s string) {
+	e.op("CPPARSE", hx([]byte(s)))
 	e.count("CPPARSE")
 	res := guard(func() string {
 		c, err := enc.ComponentPatternFromStr(s)
@@ -536,6 +602,7 @@ func (e *emitter) cpparse(s string) {
 }
 
 func (e *emitter) ppair(s1, s2 string) {
+	e.op("PPAIR", hx([]byte(s1)), hx([]byte(s2)))
 	e.count("PPAIR")
 	res := guard(func() string {
 		p1, err1 := enc.NamePatternFromStr(s1)
@@ -549,6 +616,7 @@ func (e *emitter) ppair(s1, s2 string) {
 }
 
 func (e *emitter) full(a enc.Name) {
+	e.op("FULL", nameStr(a))
 	e.count("FULL")
 	raw := []byte{6, 3, 7, 1, 0}
 	dg := sha256.Sum256(raw)
@@ -569,7 +637,12 @@ func (e *emitter) csreq(x, y enc.Name) {
 // conventions: black-box probe of the naming-convention table through Component.String()
 func (e *emitter) conventions() {
 	probe := func(t uint64) {
-		s := enc.Component{Typ: enc.TLNum(t), Val: []byte{1}}.String()
+		e.op("CSTR", strconv.FormatUint(t, 10)+":01")
+		s := ""
+		if guard(func() string { s = enc.Component{Typ: enc.TLNum(t), Val: []byte{1}}.String(); return "" }) == "panic" {
+			fmt.Fprintf(e.w, "CSTR %d:01 panic\n", t)
+			return
+		}
 		i := strings.IndexByte(s, '=')
 		if i < 0 {
 			if t != 8 {
@@ -599,6 +672,46 @@ func (e *emitter) conventions() {
 	for _, t := range []uint64{1 << 32, 1<<32 + 50, 1<<63 + 50, 1<<64 - 1} {
 		probe(t)
 	}
+}
+
+// harness-side helpers that do not go through the implementation
+func natBytes(x uint64) []byte {
+	switch {
+	case x <= 0xff:
+		return []byte{byte(x)}
+	case x <= 0xffff:
+		return []byte{byte(x >> 8), byte(x)}
+	case x <= 0xffffffff:
+		return []byte{byte(x >> 24), byte(x >> 16), byte(x >> 8), byte(x)}
+	default:
+		return []byte{byte(x >> 56), byte(x >> 48), byte(x >> 40), byte(x >> 32), byte(x >> 24), byte(x >> 16), byte(x >> 8), byte(x)}
+	}
+}
+
+func valBytes(n enc.Name) int {
+	t := 0
+	for _, c := range n {
+		t += len(c.Val) + 12
+	}
+	return t
+}
+
+func cloneName(n enc.Name) enc.Name {
+	m := make(enc.Name, len(n))
+	for i, c := range n {
+		m[i] = enc.Component{Typ: c.Typ, Val: append([]byte{}, c.Val...)}
+	}
+	return m
+}
+
+func (e *emitter) streamOf(c enc.Component) []byte {
+	var s []byte
+	e.op("HIN", strconv.FormatUint(uint64(c.Typ), 10), valSpec(c.Val))
+	if guard(func() string { s, _ = stream(c); return "" }) == "panic" {
+		fmt.Fprintf(e.w, "HIN %d %s panic\n", uint64(c.Typ), valSpec(c.Val))
+		return nil
+	}
+	return s
 }
 
 // reexec re-executes the implementation on the inputs of a stored trace line
@@ -779,13 +892,13 @@ func (g *gen) comp(wild bool) enc.Component {
 		case 0: // arbitrary value (usually non-shortest)
 		case 1: // non-shortest on purpose: leading zero bytes / odd widths / 9 bytes
 			x := natValues[g.r.Intn(len(natValues))]
-			v = append(make([]byte, 1+g.r.Intn(3)), enc.Nat(x).Bytes()...)
+			v = append(make([]byte, 1+g.r.Intn(3)), natBytes(x)...)
 		default:
 			x := natValues[g.r.Intn(len(natValues))]
 			if g.r.Intn(3) == 0 {
 				x = g.r.Uint64() >> uint(g.r.Intn(64))
 			}
-			v = enc.Nat(x).Bytes()
+			v = natBytes(x)
 		}
 	}
 	g.e.count("comp-" + g.lenClass(len(v)))
@@ -820,7 +933,7 @@ func (g *gen) name(wild bool) enc.Name {
 
 // mutate returns a name adversarially close to n
 func (g *gen) mutate(n enc.Name) enc.Name {
-	m := n.Clone()
+	m := cloneName(n)
 	k := g.r.Intn(11)
 	g.e.count("mut-" + []string{"same", "prefix", "extend", "bitflip", "bitflip", "typ+-1", "len+-1", "fresh", "swaplen", "dup-last", "byte+-1"}[k])
 	switch k {
@@ -878,7 +991,7 @@ func (g *gen) mutate(n enc.Name) enc.Name {
 		}
 	case 9:
 		if len(m) > 0 {
-			return append(m, m[len(m)-1].Clone())
+			return append(m, cloneName(enc.Name{m[len(m)-1]})[0])
 		}
 	case 10:
 		if len(m) > 0 {
@@ -926,7 +1039,7 @@ func (g *gen) goodUri() string {
 			if len(v) > 300 {
 				v = v[:300]
 			}
-			sb.WriteString(strconv.Itoa(g.r.Intn(70000)) + "=" + enc.Component{Typ: 8, Val: v}.String())
+			sb.WriteString(strconv.Itoa(g.r.Intn(70000)) + "=" + g.e.compStringOf(enc.Component{Typ: 8, Val: v}))
 		case 3:
 			sb.WriteString("<" + []string{"", "seg=", "8=", "300=", "v="}[g.r.Intn(5)] + []string{"x", "tag", "", "a=b", "a/b"}[g.r.Intn(5)] + ">")
 		default:
@@ -934,7 +1047,7 @@ func (g *gen) goodUri() string {
 			if len(v) > 300 {
 				v = v[:300]
 			}
-			sb.WriteString(enc.Component{Typ: 8, Val: v}.String())
+			sb.WriteString(g.e.compStringOf(enc.Component{Typ: 8, Val: v}))
 		}
 	}
 	if g.r.Intn(4) == 0 {
@@ -1068,9 +1181,15 @@ func runSweeps(e *emitter, g *gen, thorough bool) {
 	{
 		base := []enc.Component{{Typ: 8, Val: []byte{}}, {Typ: 8, Val: []byte("a")}, {Typ: 9, Val: []byte{}}, {Typ: 8, Val: make([]byte, 8)}, {Typ: 50, Val: []byte{1}}}
 		for _, c := range base {
-			sc, _ := stream(c)
+			sc := e.streamOf(c)
+			if sc == nil {
+				continue
+			}
 			for _, d := range base {
-				sd, _ := stream(d)
+				sd := e.streamOf(d)
+				if sd == nil {
+					continue
+				}
 				for _, cut := range []int{0, 8, 16, len(sc) - len(c.Val)} {
 					if cut < 0 || cut > len(sc) {
 						continue
@@ -1138,7 +1257,9 @@ func runSweeps(e *emitter, g *gen, thorough bool) {
 			n := enc.Name{{Typ: 8, Val: []byte("a")}, c, {Typ: 50, Val: []byte{7}}}
 			e.nameBytes(n)
 			e.brt(n)
-			e.fromBytes(n.Bytes())
+			if bs := e.bytesOf(n); bs != nil {
+				e.fromBytes(bs)
+			}
 			e.hash(n)
 			// Name.String() is quadratic in the value length (string concatenation per byte): the URI functions have no
 			// length-dependent behaviour, so the quick tier prints only one 65536-byte value
@@ -1159,7 +1280,9 @@ func runSweeps(e *emitter, g *gen, thorough bool) {
 		e.crt(c)
 		e.nameBytes(enc.Name{c})
 		e.brt(enc.Name{c})
-		e.fromBytes(enc.Name{c}.Bytes())
+		if bs := e.bytesOf(enc.Name{c}); bs != nil {
+			e.fromBytes(bs)
+		}
 		e.str(enc.Name{c})
 		e.rt(enc.Name{c})
 		e.hash(enc.Name{c})
@@ -1177,13 +1300,13 @@ func runSweeps(e *emitter, g *gen, thorough bool) {
 	// numeric conventions: every width, shortest and not
 	for _, t := range []uint64{50, 52, 54, 56, 58} {
 		for _, x := range natValues {
-			c := enc.Component{Typ: enc.TLNum(t), Val: enc.Nat(x).Bytes()}
+			c := enc.Component{Typ: enc.TLNum(t), Val: natBytes(x)}
 			e.count("sweep-nat")
 			e.cstr(c)
 			e.crt(c)
 			e.rt(enc.Name{c})
 			for _, pad := range []int{1, 2, 3, 7, 8} {
-				p := enc.Component{Typ: enc.TLNum(t), Val: append(make([]byte, pad), enc.Nat(x).Bytes()...)}
+				p := enc.Component{Typ: enc.TLNum(t), Val: append(make([]byte, pad), natBytes(x)...)}
 				e.cstr(p)
 				e.crt(p)
 			}
@@ -1230,15 +1353,16 @@ func runGenerated(e *emitter, g *gen, ncases int, thorough bool) {
 		}
 		if len(a) > 0 && len(b) > 0 {
 			e.comp(a[g.r.Intn(len(a))], b[g.r.Intn(len(b))])
-			cb := a[g.r.Intn(len(a))].Bytes()
-			e.compFromBytes(cb)
-			e.compFromBytes(cb[:g.r.Intn(len(cb))])
-			e.compFromBytes(append(cb, byte(g.r.Intn(256))))
+			if cb := e.compBytesOf(a[g.r.Intn(len(a))]); len(cb) > 0 {
+				e.compFromBytes(cb)
+				e.compFromBytes(cb[:g.r.Intn(len(cb))])
+				e.compFromBytes(append(cb, byte(g.r.Intn(256))))
+			}
 		}
 		e.nameBytes(a)
 		e.brt(a)
 		// NameFromBytes on the encoding, on a truncation, on a mutated copy, on a copy with one byte inserted
-		bs := a.Bytes()
+		bs := e.bytesOf(a)
 		e.fromBytes(bs)
 		if len(bs) > 0 {
 			e.fromBytes(bs[:g.r.Intn(len(bs))])
@@ -1271,7 +1395,7 @@ func runGenerated(e *emitter, g *gen, ncases int, thorough bool) {
 		}
 		if i%10 == 0 {
 			e.full(u)
-			if len(a) > 0 && len(b) > 0 && len(a.Bytes()) < 4000 && len(b.Bytes()) < 4000 {
+			if len(a) > 0 && len(b) > 0 && valBytes(a) < 4000 && valBytes(b) < 4000 {
 				e.csreq(a, b)
 			}
 		}
@@ -1358,6 +1482,19 @@ func TestTrace(t *testing.T) {
 	defer f.Close()
 	defer w.Flush()
 	e := &emitter{w: w, dist: map[string]int{}}
+	if ops, err := os.Create(os.Getenv("VERIF_OUT") + ".ops"); err == nil {
+		e.ops = ops
+		defer ops.Close()
+	}
+	defer func() {
+		if r := recover(); r != nil { // a panic that escaped every guard: name it in the ops log, keep the trace written so far
+			if e.ops != nil {
+				e.ops.WriteString("!PANIC " + strings.ReplaceAll(fmt.Sprint(r), "\n", " ") + "\n")
+			}
+			w.Flush()
+			t.Fatalf("harness aborted: %v", r)
+		}
+	}()
 	if dir := os.Getenv("VERIF_CORPUS"); dir != "" {
 		files, _ := filepath.Glob(filepath.Join(dir, "*.trace"))
 		sort.Strings(files)
